@@ -71,7 +71,7 @@ ImplCmd(b) == LET f == Find(b, 1) IN
   ELSE IF f.st # "found" THEN [res |-> f.st, kv |-> <<>>]
   ELSE LET raw == b[f.idx].s \o <<0, 238, 238, 238, 238, 238, 238, 238, 238, 238>>     \* NUL, then padding / next tag
            n == CSize(b[f.idx]) - (IF Bug = "CmdLenPlusOne" THEN 0 ELSE 1)
-       IN [res |-> "ok", kv |-> KvR(Tokens(SubSeq(raw, 1, n), 1, <<>>), 1, <<>>)]
+       IN [res |-> "ok", kv |-> KvR(Tokens(SubSeq(raw, 1, n)), 1, <<>>)]
 
 ImplElf(b) == LET f == Find(b, 9) IN
   IF f.st = "absent" THEN [res |-> "ok", secs |-> <<>>]
